@@ -36,3 +36,8 @@ def shape_key(case, results):
             t = r.req.split()
             return "trk-" + t[1] + ("-invalid-choice" if "invalid-choice" in r.flags else "")
     return "none"
+
+SOURCE_TIE = "Source-level tie by proof (Tie/Attr, Tie/Record): the attribute updates (update_history, merge, apply) and the record conversions of the trackers, regenerated from the source on every run, equal the model's."
+LEVEL_TEXT = LEVEL_TEXT + " " + SOURCE_TIE
+TRUSTED_BASE = TRUSTED_BASE + ["translator/kernels.py + rustexpr.py (reader of the Rust subset, per-function tables) for the functions named in SOURCE_TIE; generated definitions are proof obligations (Tie modules) on every run"]
+TECHNIQUE = TECHNIQUE + "; model regenerated from the source by a translator for the functions of SOURCE_TIE, tied by proof"
